@@ -8,6 +8,7 @@ delegates to the loader's uptodate callable; every loader whose source can chang
 an uptodate callable that re-reads current state and fails closed; create_cache /
 copy_cache map sizes 0, <0, >0 to no cache, dict, LRUCache(size).
 Also: every from_code in BaseLoader.load receives the uptodate callable.  
+Also: only methods offered by both dict and LRUCache are called on the template cache.  
 Not decided: histories of loads and source changes, LRU eviction order (see C26).
 """
 
